@@ -18,7 +18,7 @@ PROP = "C16"
 TYPES = ["bool", "int", "int8", "int16", "int32", "int64", "uint", "uint8", "uint16", "uint32", "uint64", "float32", "float64", "string",
          "bytes", "array4", "ints", "strings", "arr3", "map", "mapiface", "iface", "ifaces", "ptrint", "ptrptr", "timestamp",
          "decimalptr", "time", "bigint", "bigintptr", "scalars", "tags", "coll", "ptr", "ifacestruct", "inner", "embed", "embedptr",
-         "special", "annint", "annstruct", "annlist", "nested", "deep", "case"]
+         "special", "annint", "annstruct", "annlist", "nested", "deep", "case", "mapstruct"]
 
 
 def judge(wd, cases, nshards=14, tag="ms"):
@@ -48,13 +48,19 @@ def run(tier):
         bad = [(c, v, o) for c, v, o in res if v["why"] != "ok"]
         if bad:
             again = {(c["type"], c["seed"]): (a, ao) for c, a, ao in judge(wd, [c for c, _, _ in bad], tag="confirm")}
+            unreproduced = []
             for c, v, o in bad:
                 a, ao = again[(c["type"], c["seed"])]
                 if a["why"] == "ok":
-                    raise core.MachineryError("failure on %s did not reproduce" % c)
+                    unreproduced.append(c)      # e.g. a reused buffer that happened to be fresh the second time
+                    continue
                 sig = dict(type=c["type"], why=a["why"], text=bytes(ao["text"]).decode("utf8", "replace")[:200],
                            err=(ao["texterr"] or ao["binerr"] or ao["backtexterr"] or ao["backbinerr"])[:160], panic=ao["panic"][:160])
                 verdicts.fail(sig, dict(case=c, why=a["why"], text=ao["text"]))
+            if unreproduced and not verdicts.violations and not verdicts.known:
+                raise core.MachineryError("failure on %s did not reproduce" % unreproduced[0])
+            for c in unreproduced[:5]:
+                print("NOTE not reproduced in a second run (not counted): %s" % c)
         rc = verdicts.report()
         core.write_evidence(PROP, tier, "model_checking", dict(
             states=len(cases), transitions=4 * len(cases), traces_validated_against_impl=len(cases), evaluations=4 * len(cases),
